@@ -71,6 +71,10 @@ MUTS = [
          "                if length <= 0x110 { out_buffer[last_index] |= (((disp - 1) >> 8) & 0x0F) as u8; }")),
     ("c09-h", ["C09"], "look-ahead 0x1000 -> 0x1001 (valid stream, differs from the model)", L13,
      rep("min(bytes.len() - read_bytes, 0x1000),", "min(bytes.len() - read_bytes, 0x1001),")),
+    ("c09-i", ["C09"], "extended size form only above 0x1000000 (exactly 16 MiB written with a 24-bit size of 0)", L13,
+     rep("if length == 0 || length > 0xFFFFFF {", "if length == 0 || length > 0x1000000 {")),
+    ("c09-j", ["C09"], "size guard `bytes.len() >= 0xFFFFFF` -> Err (off by one, as seeded C08-4 but in LZ13)", L13,
+     rep("        let mut result: Vec<u8> = Vec::new();\n        let length = bytes.len();", "        if bytes.len() >= 0xFFFFFF { return Err(CompressionError::InvalidInput(\"too large\".to_string())); }\n        let mut result: Vec<u8> = Vec::new();\n        let length = bytes.len();")),
     # ------------------------------------------------------------------ C10: sizes
     ("c10-a", ["C10"], "LZ10 window 0x1000 -> 0xFFF", L10,
      rep("let old_length = min(read_bytes, 0x1000);", "let old_length = min(read_bytes, 0xFFF);")),
@@ -118,6 +122,10 @@ MUTS = [
      rep("+ 0x11, (b1 & 15) << 8 | b2)", "+ 0x10, (b1 & 15) << 8 | b2)")),
     ("c11-m", ["C11"], "LZ10 length bias +3 -> +2 for the maximal nibble only", L13,
      rep("((b0 >> 4) + 3, (b0 & 15) << 8 | b1)", "((b0 >> 4) + (if b0 >> 4 == 15 { 2 } else { 3 }), (b0 & 15) << 8 | b1)")),
+    ("c11-o", ["C11"], "extended size: the fourth byte (<< 24) is dropped", L13,
+     rep("size = input.next()? | input.next()? << 8 | input.next()? << 16 | input.next()? << 24;", "size = input.next()? | input.next()? << 8 | input.next()? << 16 | (input.next()? & 0) << 24;")),
+    ("c11-p", ["C11"], "24-bit size: top bit of the third byte masked (sizes of 8 MiB and more)", L13,
+     rep("let mut size = input.next()? | input.next()? << 8 | input.next()? << 16;", "let mut size = input.next()? | input.next()? << 8 | (input.next()? & 0x7F) << 16;")),
     ("c11-n", ["C11"], "copy stops at the announced size (an overshooting last token is cut; conforming streams unaffected)", L13,
      rep("                let value = out[i];\n                out.push(value);", "                let value = out[i];\n                if out.len() < size { out.push(value); }")),
 ]
